@@ -19,5 +19,5 @@ CLAIM = """Static decision that every publication site of both search drivers is
 MIR CFG), that anchored mode never follows failure links in either NFA or in the DFA construction, that no prefilter runs in anchored
 mode, and that the anchoring mode is plumbed unchanged. The stepwise anchored overlapping search is not exercised by the pinned suite;
 this rule set reported defect D3 (repaired in /repo commit bc87029)."""
-NOTE = """Trusted: rustc MIR construction, the fact extractor. Anchors are def-paths and variable names of the drivers."""
+NOTE = """Trusted: rustc MIR construction, the fact extractor. Anchors are def-paths; the drivers' cursor, state id and input are resolved by role (type, data flow)."""
 TECHNIQUE = "static analysis: graph-cut / dominance queries and reaching-definition analysis over rustc MIR of the search drivers and automaton builders"
